@@ -8,6 +8,8 @@ use std::sync::Once;
 pub enum PanicKind {
     /// the step-budget panic raised by the in-crate hook
     Budget,
+    /// the instrumented reader was called an absurd number of times: the stream parser is spinning on it
+    IoBudget,
     /// a panic located in the harness's own sources: a harness bug, never a verdict
     Harness,
     /// anything else reached from a monitored call: the crate's (or core/std on its behalf)
@@ -35,6 +37,7 @@ thread_local! {
 static INIT: Once = Once::new();
 
 pub const BUDGET_MSG: &str = "elf_verif_hooks: step budget exceeded";
+pub const IO_BUDGET_MSG: &str = "elfmon: I/O call budget exceeded";
 
 pub fn install() {
     INIT.call_once(|| {
@@ -66,6 +69,8 @@ pub fn classify(file: &str, msg: &str) -> PanicKind {
     // path ("/repo/src/…"), and core/std with their sysroot paths.
     if msg.contains(BUDGET_MSG) {
         PanicKind::Budget
+    } else if msg.contains(IO_BUDGET_MSG) {
+        PanicKind::IoBudget
     } else if file.starts_with("src/") || file.contains("verif/harness/") || file.contains("verif/fuzz/") {
         PanicKind::Harness
     } else {
